@@ -27,17 +27,17 @@ ASSUMPTIONS = ["CPython ast", "arch.dis() returns the single-instruction decodin
 
 
 def run(ck):
-    ck.rule("R6", "no loop walks a live view of a container of the graph while removing from that container", floor=15)
+    ck.rule("R6", "no loop walks a live view of a container of the graph while removing from that container", floor=13)
     from rules.c30 import live_iteration_rules
     live_iteration_rules(ck, "R6", [("miasm/core/asmblock.py", "AsmCFG")])
     m = ck.repo.mod(REL)
-    ck.rule("R1", "every exit of the decoding loop records the block's continuation (or leaves a bad block)", floor=6)
-    ck.rule("R2", "job_done is updated with the offset of each appended instruction, before it is appended", floor=3)
-    ck.rule("R3", "dis_multiblock adds every block, shares job_done, queues successors, ends with apply_splitting; splitting triggers rebuild_edges", floor=6)
-    ck.rule("R4", "AsmBlock.split partitions lines and re-links constraints", floor=3)
-    ck.rule("R5", "flow destinations become c_to constraints; split flow records the fall-through", floor=2)
+    ck.rule("R1", "every exit of the decoding loop records the block's continuation (or leaves a bad block)", floor=4)
+    ck.rule("R2", "job_done is updated with the offset of each appended instruction, before it is appended", floor=1)
+    ck.rule("R3", "dis_multiblock adds every block, shares job_done, queues successors, ends with apply_splitting; splitting triggers rebuild_edges", floor=4)
+    ck.rule("R4", "AsmBlock.split partitions lines and re-links constraints", floor=1)
+    ck.rule("R5", "flow destinations become c_to constraints; split flow records the fall-through", floor=1)
     ck.rule("R7", "block merging removes the last instruction of the head only where it is known to be a jump with an encoded destination, and keeps every "
-                  "line of the son", floor=2)
+                  "line of the son", floor=1)
     _merge_rules(ck, m)
 
     from sa.prenorm import inline_helpers
@@ -247,9 +247,11 @@ def _merge_rules(ck, m):
         if nd.kind == "stmt" and isinstance(nd.ast, ast.Assign) and any(norm(t).endswith(".lines") for t in nd.ast.targets) and \
                 isinstance(nd.ast.value, ast.Subscript) and isinstance(nd.ast.value.slice, ast.Slice):
             pops.append((nd, nd.ast))
-    res_ = None
+    from sa.facts import with_bool_temps
+    from sa.astutil import Resolver as _Rm
+    res_ = _Rm(fn)
     for nd, c in pops:
-        f = facts.get(nd.id, frozenset())
+        f = with_bool_temps(facts.get(nd.id, frozenset()), res_)
         bf = [t for t in f if t[0] == "true" and t[1].endswith(".breakflow()")]
         df = [t for t in f if t[0] == "true" and t[1].endswith(".dstflow()")]
         same = bool(bf) and bool(df) and any(b[1].rsplit(".", 1)[0] == d[1].rsplit(".", 1)[0] for b in bf for d in df)
